@@ -4,7 +4,7 @@ from mirlib import *
 from paths import *
 from shape import *
 from ranges import *
-import r_unchecked, r_surr, r_lookahead, r_decclass, scan, r_kernel
+import r_unchecked, r_surr, r_lookahead, r_decclass, scan, r_kernel, r_lane
 from r_writers import T37
 
 MANIFEST = {
@@ -32,8 +32,11 @@ MANIFEST = {
             'adds exactly the element width (16/32/1 units, from the iterator item type) to the position counter and an offending unit is '
             'reported at counter + the position the stride function returned for the current element; a stride function answers None only '
             'if tests that passed on that path cover all 16/32 units of its source stride (SIMD vectors are traced back to the sub-arrays '
-            'they were loaded from) and reports positions in the second half with the right offset. SIMD lane arithmetic inside the vector '
-            'predicates, core iterator semantics and simdutf8 == core::str are trusted.',
+            'they were loaded from) and reports positions in the second half with the right offset. (D7, R-LANE, simd-accel) the vector predicates and validators of simd_funcs.rs are decided lane-wise: the exact set of lane '
+            'values that sets each comparison mask is extracted and every reduction (all/any/first_set/movemask == 0) is checked per return '
+            'path against the definition (ASCII 00-7F, Basic Latin, Latin1 00-FF, str-Latin1 00-C3, surrogates D800-DFFF; None iff no lane flagged, '
+            'position from masks flagging exactly that set). Vendor intrinsic semantics (movemask, packus, deinterleave), core::simd, core '
+            'iterator semantics and simdutf8 == core::str are trusted.',
     'note': 'Trusted: rustc MIR and const evaluation, mirx, rule library, Unicode Table 3-7 as transcribed in rules/r_writers.py, simdutf8 == core::str validation.',
     'technique': 'exhaustive obligations over a const-evaluated table + expression-shape matching + exact interval extraction + bounds dataflow + path-sensitive abstract interpretation of the scanner automata (interval products per unit, distance-to-end zone, fixpoint invariants) on MIR',
 }
@@ -283,6 +286,8 @@ def run(rep, facts, tier):
         rep.floor('R-UNCHECKED', 'unchecked reads in validators', n, 20, c)
         k = r_lookahead.run(rep, f, c, 'R-LOOKAHEAD', lambda nm: nm.startswith('mem::utf16_valid_up_to'))
         r_kernel.run(rep, f, c, 'R-KERNEL', ['validate'])
+        if c.startswith('simd'):
+            r_lane.run(rep, f, c)
         scan.run_specs(rep, f, c, 'R-SCAN', ['utf_8::utf8_valid_up_to', 'utf_8::convert_utf8_to_utf16_up_to_invalid', 'mem::utf16_valid_up_to',
                                              'mem::is_utf8_latin1_impl', 'mem::is_str_latin1_impl'])
     return ('other', MANIFEST['text'], [])
